@@ -206,6 +206,7 @@ func (e *Engine) instrWrites(fn *ssa.Function, in ssa.Instruction, set map[strin
 		set[e.addrPattern(x.Addr)] = true
 	case *ssa.MapUpdate:
 		set["M|"+e.P.relType(x.Map.Type().Underlying().(*types.Map))+"|*"] = true
+
 	case *ssa.Alloc, *ssa.MakeMap, *ssa.MakeSlice, *ssa.MakeChan, *ssa.MakeInterface, *ssa.Convert:
 		set[allocName] = true
 		if a, ok := x.(*ssa.Alloc); ok {
@@ -283,6 +284,7 @@ func (e *Engine) callWrites(fn *ssa.Function, call *ssa.CallCommon, set map[stri
 		switch v.Name() {
 		case "delete":
 			set["M|"+e.P.relType(call.Args[0].Type().Underlying().(*types.Map))+"|*"] = true
+			set["G|removed"] = true
 		case "append":
 			et := call.Args[0].Type().Underlying().(*types.Slice).Elem()
 			set[allocName] = true
@@ -400,6 +402,7 @@ func (e *Engine) modelWrites(f *ssa.Function, call *ssa.CallCommon, set map[stri
 	if len(f.String()) > 12 && f.String()[:12] == "(*sync.Map)." {
 		set["SM|*"] = true
 		set[allocName] = true
+		set["G|removed"] = true
 	}
 }
 
